@@ -6,7 +6,7 @@
 From Coq Require Import NArith List Bool.
 From Snap.Crc Require Import CrcModel CrcProofs.
 From Snap.Codec Require Import Varint CodecModel.
-From Snap.Content Require Import CrcBurstBytes NoConfModel RejectCodec TruncCodec StringBounds.
+From Snap.Content Require Import CrcBurstBytes NoConfModel RejectCodec TruncCodec StringBounds RunWrap.
 Import ListNotations.
 Local Open Scope N_scope.
 
@@ -59,3 +59,31 @@ Example C09_string_boundary :
   (exists s rest, getstr 128 ([127; 128] ++ repeat 85 127) = Ok (s, rest) /\ length s = 127%nat) /\
   (forall t, getstr 128 ([0; 129] ++ t) = Bad) /\ (forall t, getstr 4096 ([0; 160] ++ t) = Bad).
 Proof. exact string_boundary. Qed.
+
+(* --- the 32-bit range sums of the block-run loader wrap; the per-block check is what refuses a wrapped run --------------- *)
+(* CodecModel.read_runs makes the two range tests on u32 (v_idx + v_count) / u32 (v_pos + v_count) like the C; a count of
+   0xFFFFFFFF passes both when v_idx, v_pos >= 1 (first Example); the run is refused by the model's (WRAP) clause, which stands
+   for the abort of fs_file2block_get() on the first block beyond the file -- whatever follows in the stream *)
+Example C09_range_tests_wrap :
+  let fbm := 2 in let bm := 3 in let v_idx := 1 in let v_pos := 2 in let v_count := 4294967295 in
+  (fbm <? u32 (v_idx + v_count)) = false /\ (bm <? u32 (v_pos + v_count)) = false /\
+  (fbm <? v_idx + v_count) = true /\ sgetb32 [127; 127; 127; 127; 143] = Ok (v_count, []).
+Proof. exact range_tests_wrap. Qed.
+
+Theorem C09_wrapped_run_rejected : forall f k hs bm fbm v_idx acc c v_pos v_count rest,
+  v_idx < fbm -> v_pos < 2^32 -> v_count < 2^32 -> v_count <> 0 ->
+  (2^32 <= v_idx + v_count \/ 2^32 <= v_pos + v_count) ->
+  read_runs (S f) k hs bm fbm v_idx acc (c :: sputb32 v_pos ++ sputb32 v_count ++ rest) = Bad.
+Proof. exact wrapped_run_rejected. Qed.
+Print Assumptions C09_wrapped_run_rejected.
+
+Example C09_wrapped_run_instance : forall k acc rest,
+  read_runs 5 k 16 3 2 1 acc ([98; 130; 127; 127; 127; 127; 143] ++ rest) = Bad.
+Proof. exact wrapped_run_instance. Qed.
+
+(* after the repair of the range tests (`v_count > max || v > max - v_count` in the C): the model's u32 test followed by its (WRAP)
+   clause rejects exactly the same runs, so the model is unchanged and a wrapped count is refused before the fill loop *)
+Theorem C09_model_range_test_is_overflow_safe : forall v n mx, v < 2^32 -> n < 2^32 -> mx < 2^32 ->
+  ((mx <? u32 (v + n)) || (4294967296 <=? v + n)) = ((mx <? n) || (mx - n <? v)).
+Proof. exact model_range_test_is_overflow_safe. Qed.
+Print Assumptions C09_model_range_test_is_overflow_safe.
